@@ -99,8 +99,9 @@ func Explore(t *T, bound int, maxExec int64, body func(c *Ctx)) ExploreStats {
 	}
 	var rec func(prefix []int, want []point, spent int)
 	rec = func(prefix []int, want []point, spent int) {
-		if maxExec > 0 && st.Execs >= maxExec {
+		if (maxExec > 0 && st.Execs >= maxExec) || (st.Execs > 0 && st.Execs%64 == 0 && PastDeadline()) || (st.Capped && PastDeadline()) {
 			st.Capped = true
+			t.Capped()
 			return
 		}
 		c := &Ctx{prefix: prefix, want: want}
